@@ -221,10 +221,12 @@ PROPS = {
                 kh("c12_decoders_never_panic_len2", "... 2-byte records", "all contents, length 2", K_STUBS_TRACING + ["rmp_serde::from_slice -> Err"]),
                 kh("c12_decoders_never_panic_len3", "... 3-byte records", "all contents, length 3", K_STUBS_TRACING + ["rmp_serde::from_slice -> Err"]),
                 kh("c12_decoders_never_panic_len4", "... 4-byte records", "all contents, length 4", K_STUBS_TRACING + ["rmp_serde::from_slice -> Err"]),
+                kh("c12_decoders_never_panic_len8", "... 8-byte records", "all contents, length 8", K_STUBS_TRACING + ["rmp_serde::from_slice -> Err"], only="thorough"),
+                kh("c12_decoders_never_panic_len16", "... 16-byte records", "all contents, length 16", K_STUBS_TRACING + ["rmp_serde::from_slice -> Err"], only="thorough"),
             ]},
         ],
         "assumptions": K_ASSUMPTIONS + ["rmp_serde::from_slice is stubbed to fail in the slicing harnesses: serde-derive + rmp decoding of symbolic bytes is out of CBMC's reach (measured > 15 min for 3 bytes)"],
-        "bounds": {"quick": "all 8 kinds; all u32 tags; record lengths 0..4 with arbitrary contents"},
+        "bounds": {"quick": "all 8 kinds; all u32 tags; record lengths 0..4 with arbitrary contents", "thorough": "as quick, plus record lengths 8 and 16"},
         "outside": ["round trips of full values of every record kind and of Request/Response messages through serde-derive + rmp (not claimed)", "payloads with payment proofs", "decoding of arbitrary longer byte strings"],
     },
     "C13": {
